@@ -1,5 +1,5 @@
 (** * C15 — reported positions identify exactly the right tokens.  Statements only. *)
-From PLS Require Import Model.Ranges Model.Analyzer Proofs.TextFns Proofs.Positions.
+From PLS Require Import Model.Ranges Model.Analyzer Proofs.TextFns Proofs.Positions Proofs.LineIndex.
 Open Scope N_scope.
 
 (** ** what "covers exactly the token, in UTF-16 columns" means, and when byte columns do *)
@@ -82,6 +82,22 @@ Theorem C15_line_of_offset_correct :
   forall a b, line_of_offset (build_line_index (a ++ b)) (blen a) = 1 + count_nl a.
 Proof. exact line_of_offset_correct. Qed.
 Print Assumptions C15_line_of_offset_correct.
+
+(** ... and the column is the number of bytes since that line began: for every text split as
+    [pre ++ cur ++ rest] with [pre] empty or ending in a line feed and [cur] free of line
+    feeds, the offset at the end of [cur] is reported on line 1 + (line feeds in [pre]), the
+    line start looked up for it is [blen pre], so the column is [blen cur] - any character
+    widths, CR LF line ends (the CR stays on its line), with or without a final line feed *)
+Theorem C15_offset_to_position_exact :
+  forall pre cur rest,
+    ends_with_lf pre -> count_lf cur = 0 ->
+    let index := build_line_index (pre ++ cur ++ rest) in
+    let line := line_of_offset index (blen pre + blen cur) in
+    line = 1 + count_lf pre /\
+    (usub line 1 >>= idx index) = Ok (blen pre) /\
+    (blen pre + blen cur) - blen pre = blen cur.
+Proof. exact offset_to_position_exact. Qed.
+Print Assumptions C15_offset_to_position_exact.
 
 (** ** what the four repairs changed, and what seeded change S14 would do *)
 Lemma C15_string_span_old_refuted :
